@@ -693,7 +693,7 @@ def _run_batch(binary, env, batch, prop, wd):
     return res, transient
 
 
-def run_specs(ctx, specs, prop, name):
+def run_specs(ctx, specs, prop, name, isolate=False):
     binary = probe_binary()
     env = build.run_env()
     # a small quarantine keeps the ASan allocator from touching fresh pages for every field object (10x faster)
@@ -701,13 +701,17 @@ def run_specs(ctx, specs, prop, name):
     wd = os.path.join(ctx.workdir, name)
     shutil.rmtree(wd, ignore_errors=True)
     os.makedirs(wd)
-    nproc = min(8, max(1, len(specs) // 40))
-    parts = [list(range(len(specs)))[i::nproc] for i in range(nproc)]
+    if isolate:                      # one process per execution (canaries: an abort must not take others along)
+        nproc = min(8, max(1, len(specs)))
+        parts = [[i] for i in range(len(specs))]
+    else:
+        nproc = min(8, max(1, len(specs) // 40))
+        parts = [list(range(len(specs)))[i::nproc] for i in range(nproc)]
 
     def one(pi):
         return _run_batch(binary, env, [specs[i] for i in parts[pi]], prop, wd)
     with ThreadPoolExecutor(max_workers=nproc) as ex:
-        outs = list(ex.map(one, range(nproc)))
+        outs = list(ex.map(one, range(len(parts))))
     raw = [None] * len(specs)
     for pi, (res, transient) in enumerate(outs):
         if transient:
@@ -861,10 +865,10 @@ def replay(ctx, prop):
     ctx.rule = "replay of one recorded execution"
 
 
-def run_and_judge(ctx, specs, prop, name):
+def run_and_judge(ctx, specs, prop, name, isolate=False):
     """Execute the specs on the real library and let the monitor judge them.  Returns the set of indices
     of specs that failed."""
-    raw = run_specs(ctx, specs, prop, name)
+    raw = run_specs(ctx, specs, prop, name, isolate)
     ctx.tick(name + ":probe")
     mons, idx, failed = [], [], set()
     for i, (sp, r) in enumerate(zip(specs, raw)):
@@ -880,7 +884,7 @@ def run_and_judge(ctx, specs, prop, name):
             continue
         mons.append(mon)
         idx.append(i)
-    fails, info = validate(ctx, mons, name, chunks=max(4, len(mons) // 600))
+    fails, info = validate(ctx, mons, name, chunks=1 if len(mons) < 60 else max(4, len(mons) // 600))
     ctx.add_validation(info, len(mons))
     for i, mon in zip(idx, mons):
         ctx.case(abstract_case(specs[i], mon), nontrivial=len(mon) > 2)
@@ -921,7 +925,7 @@ def canaries(ctx, rng, prop, classes):
             for pool, c in ((ints, "neg"), (ints[::-1], "big"), (dts, "late")):
                 if c not in classes:
                     continue
-                for m in pool[:2]:
+                for m in pool[:1]:
                     sp = make_spec(Gen(rng, hdrgrp_ok=False), schname, mt, "canary_" + c, lambda x, d: False, lambda x, d: 1, "schema")
                     text, fl = gens[c].value(m.field, late=(c == "late"), neg=(c == "neg"), big=(c == "big"))
                     sp.want["b"] = [f for f in sp.want["b"] if f[0] != m.field.number] + [[m.field.number, text, []]]
@@ -931,12 +935,12 @@ def canaries(ctx, rng, prop, classes):
                     specs.append(sp)
                     cls.append(c)
             if "hdrgrp" in classes and any(m.group is not None for m in s.header):
-                for k in (1, 2):
+                for k in (2,):
                     sp = make_spec(Gen(rng), schname, mt, "canary_hdrgrp", lambda x, d: x.group is not None and d == 0,
                                    lambda x, d, k=k: k, "schema")
                     specs.append(sp)
                     cls.append("hdrgrp")
-    failed = run_and_judge(ctx, specs, prop, "canary") if specs else set()
+    failed = run_and_judge(ctx, specs, prop, "canary", isolate=True) if specs else set()
     ok = {c: not any(cls[i] == c for i in failed) for c in classes}
     ctx.extra["input_classes_used_in_bulk"] = dict({CLASSES[c]: v for c, v in ok.items()}, canary_executions=len(specs))
     return ok, len(specs)
